@@ -2,6 +2,7 @@ package main
 
 import (
 	"fmt"
+	"sort"
 	"strings"
 
 	"golang.org/x/tools/go/ssa"
@@ -44,6 +45,63 @@ func runC19(c *Ctx) {
 	for _, p := range []*Prog{c.V1, c.V2} {
 		c19prog(c, p)
 		errChannelNonBlocking(c, p, "G5")
+	}
+	// G7: goroutines the runtime starts on the discipline's behalf. A callback handed to
+	// time.AfterFunc / context.AfterFunc runs on its own goroutine, which Stop() cannot recall
+	// once it has started: it must not wait for anything (a callback blocked in a send or receive
+	// when the discipline terminates stays for ever)
+	r.Doc("G7", "callbacks handed to time.AfterFunc / context.AfterFunc (goroutines started by the runtime) contain no blocking operation", 0)
+	n7 := 0
+	for _, p := range []*Prog{c.V1, c.V2} {
+		for _, fn := range p.Funcs() {
+			for _, b := range fn.Blocks {
+				for _, in := range b.Instrs {
+					call, ok := in.(ssa.CallInstruction)
+					if !ok {
+						continue
+					}
+					cal := p.Callee(call)
+					if cal == nil {
+						continue
+					}
+					name := p.funcDisplay(cal)
+					if name != "time.AfterFunc" && name != "context.AfterFunc" {
+						continue
+					}
+					n7++
+					key := fmt.Sprintf("%s#afterfunc.%d", p.FnKey(fn), n7)
+					cbv := stripChangeType(call.Common().Args[len(call.Common().Args)-1])
+					var cb *ssa.Function
+					switch x := cbv.(type) {
+					case *ssa.Function:
+						cb = x
+					case *ssa.MakeClosure:
+						cb, _ = x.Fn.(*ssa.Function)
+						if t := p.wrapperTarget(cb); t != nil {
+							cb = t
+						}
+					}
+					if cb == nil || !p.IsProduct(p.Norm(cb)) {
+						r.Fail("G7", key, p.InstrPos(in), "UNDECIDED: the callback of "+name+" is not a function of the product: its termination is not covered by any rule")
+						continue
+					}
+					var bad []string
+					for g := range p.Reach(p.Norm(cb)) {
+						for _, op := range p.BlockingOps(g) {
+							if op.Kind == "select" && op.Sel != nil && op.Sel.HasDefault {
+								continue
+							}
+							bad = append(bad, op.Kind+" at "+p.InstrPos(op.In))
+						}
+					}
+					sort.Strings(bad)
+					r.Check(len(bad) == 0, "G7", key, p.InstrPos(in), "callback never waits", "the callback of "+name+" runs on a goroutine of its own and can block ("+strings.Join(bad, "; ")+"): if it is blocked there when the discipline terminates nothing ever wakes it - the goroutine remains after termination (timer.Stop does not recall a callback that has started)")
+				}
+			}
+		}
+	}
+	if n7 == 0 {
+		r.Pass("G7", "all#afterfunc", "-", "no time.AfterFunc / context.AfterFunc in the product packages")
 	}
 }
 
